@@ -586,9 +586,13 @@ class Report:
             return 'open', None, ''
         szop = c.args[1] if c.callee.endswith('from_elem') or c.callee.endswith('resize') else c.args[-1]
         iv = it.eval_op(st, szop)
-        if iv is not None and iv[1] <= (1 << 21):
-            return 'discharged', 'D-range', 'allocation size %s bounded' % (iv,)
-        if it.is_mem(st, szop, small_ok=True):
+        # bytes, not elements: the element type is the callee's type argument (Vec::<T>::with_capacity, from_elem::<T>); a type that is not a
+        # primitive integer is counted as 64 bytes (Capability is 80, a boxed message 16 plus its heap part)
+        ga = (c.generic_args or [''])[0]
+        esz = {'u8': 1, 'i8': 1, 'bool': 1, 'u16': 2, 'i16': 2, 'u32': 4, 'i32': 4, 'u64': 8, 'i64': 8, 'usize': 8, 'isize': 8}.get(ga, 64)
+        if iv is not None and iv[1] * esz <= (1 << 21):
+            return 'discharged', 'D-range', 'allocation of at most %d element(s) of %d byte(s)' % (iv[1], esz)
+        if it.is_mem(st, szop, small_ok=(iv is not None and iv[1] * esz <= (1 << 21))):
             return 'discharged', 'D-mem', 'allocation sized by the length of received / existing data'
         # Component::read: size registered by a DynOption closure: bounded by the closures' Size payloads
         if key.endswith("as model::data::Message>::read") and 'IndexMap' in key:
